@@ -81,7 +81,7 @@ def gen_dense(rng, thorough):
     rmin = min(sr)                     # quarters
     sigma = rng.randint(max(1, int(0.35 * 2 * rmin)), int(1.05 * 2 * rmin))
     return dict(stream="adaptive", dim=dim, frames=frames, t0=rng.choice([0, 3]), sr=sr, iso=iso,
-                memory=memory, strategy=rng.choice(["recursive", "nonrecursive", "numba"]),
+                memory=memory, strategy=rng.choice(["recursive", "nonrecursive", "numba", "hybrid"]),
                 entry=rng.choice(["link_iter", "link_iter", "link_df_iter"]), maxa=maxa,
                 step=list(pq), stop8=sigma)
 
